@@ -254,8 +254,20 @@ func (s *c14Cloud) handleSnapshot(w http.ResponseWriter, r *http.Request) {
 		s.writeErr(w, 404, "ENOTFOUND", "no such database", ltx.Pos{})
 		return
 	}
+	// (a database deleted and recreated with another page size: the snapshot is
+	// built from the first file of the newest page size on, which holds every page)
+	start, lastPS := 0, uint32(0)
+	for i, b := range files {
+		var h ltx.Header
+		if len(b) >= ltx.HeaderSize && h.UnmarshalBinary(b[:ltx.HeaderSize]) == nil {
+			if i > 0 && h.PageSize != lastPS {
+				start = i
+			}
+			lastPS = h.PageSize
+		}
+	}
 	var rdrs []io.Reader
-	for _, b := range files {
+	for _, b := range files[start:] {
 		rdrs = append(rdrs, bytes.NewReader(b))
 	}
 	var buf bytes.Buffer
@@ -267,8 +279,40 @@ func (s *c14Cloud) handleSnapshot(w http.ResponseWriter, r *http.Request) {
 		s.writeErr(w, 500, "EINTERNAL", err.Error(), ltx.Pos{})
 		return
 	}
+	out := buf.Bytes()
+	if start > 0 {
+		// as a snapshot: first transaction ID 1, no pre-apply checksum
+		dec := ltx.NewDecoder(bytes.NewReader(out))
+		var sb bytes.Buffer
+		enc := ltx.NewEncoder(&sb)
+		err := dec.DecodeHeader()
+		if err == nil {
+			h := dec.Header()
+			h.MinTXID, h.PreApplyChecksum = 1, 0
+			err = enc.EncodeHeader(h)
+			page := make([]byte, h.PageSize)
+			for err == nil {
+				var ph ltx.PageHeader
+				if err = dec.DecodePage(&ph, page); err != nil {
+					break
+				}
+				err = enc.EncodePage(ph, page)
+			}
+			if err == io.EOF {
+				if err = dec.Close(); err == nil {
+					enc.SetPostApplyChecksum(dec.Trailer().PostApplyChecksum)
+					err = enc.Close()
+				}
+			}
+		}
+		if err != nil {
+			s.writeErr(w, 500, "EINTERNAL", "snapshot across a page size change: "+err.Error(), ltx.Pos{})
+			return
+		}
+		out = sb.Bytes()
+	}
 	w.WriteHeader(200)
-	_, _ = w.Write(buf.Bytes())
+	_, _ = w.Write(out)
 }
 
 // ---------------------------------------------------------------------------
@@ -900,12 +944,34 @@ func runC14(c *core.Case) {
 					n++
 				}
 			}
-			if n >= 1 {
+			if n >= 2 { // one whole round has run since the file exists
 				break
 			}
 			time.Sleep(5 * time.Millisecond)
 		}
 		time.Sleep(20 * time.Millisecond)
+		if c.Index%44 == 10 {
+			// the application only looks (its file stays empty): the service is
+			// ahead of the primary, which has to adopt it without any local commit
+			for dl := time.Now().Add(20 * time.Second); mon.PosOf(P.n, "db").TXID == 0 && time.Now().Before(dl); {
+				time.Sleep(5 * time.Millisecond)
+			}
+			if mon.PosOf(P.n, "db").TXID == 0 {
+				refreshes := 0
+				for _, e := range P.rec.since(m0) {
+					if e.Op == "PosMap" && e.Err == "" {
+						refreshes++
+					}
+				}
+				if refreshes < 8 {
+					c.Inconclusive("background loop made too few rounds within the watchdog")
+					return
+				}
+				c.Violate("C14/service-not-adopted", fmt.Sprintf("empty-local: the service holds a chain up to %s for a database whose local file exists but was never written (position zero); after %d position-map refreshes on the idle primary the service's snapshot has not been adopted", svcBefore.pos, refreshes), detail(nil))
+				return
+			}
+			c.Count("fresh_idle_primary_adopted_existing_service", 1)
+		}
 		if mon.PosOf(P.n, "db").TXID == 0 {
 			// not restored yet: the application commits its first transaction
 			if err := openWriter(P, true); err == nil {
@@ -1087,6 +1153,12 @@ func runC14(c *core.Case) {
 				if !converge(P, "after-drop (dropped, not recreated)", maxSyncs, expect) {
 					return
 				}
+			}
+			if c.Rng.IntN(2) == 0 {
+				// the new incarnation has another page size
+				ps = map[uint32]uint32{1024: 4096, 512: 1024, 4096: 512}[ps]
+				hist = append(hist, fmt.Sprintf("recreated with page size %d", ps))
+				c.Count("recreated_with_other_page_size", 1)
 			}
 			if err := openWriter(P, true); err != nil {
 				c.Violate("C14/setup", "recreate: "+err.Error(), detail(nil))
